@@ -57,7 +57,11 @@ static void viol(const std::string& key, const std::string& what) {
   exit(3);
 }
 
-static void on_asan_death() { fprintf(stderr, "@asan-death table=%llu desc=%s\n", (ull)g_table, g_table_desc.c_str()); }
+// Called by the sanitizer runtime when it kills the process (possibly after static destructors ran: plain buffers only).
+static char g_death_desc[900];
+static bool g_finished = false;
+static void set_desc(const std::string& d) { g_table_desc = d; snprintf(g_death_desc, sizeof g_death_desc, "%s", d.c_str()); }
+static void on_asan_death() { if (!g_finished) fprintf(stderr, "@asan-death table=%llu desc=%s\n", (ull)g_table, g_death_desc); }
 
 enum SizeClass { SC_ZERO, SC_BYTES_M1, SC_BYTES, SC_REQ_M1, SC_REQ, SC_REQ_PK, SC_CODESIZE, SC_COUNT };
 static const char* kSizeClassNames[] = { "zero", "section_bytes-1", "section_bytes", "required-1", "required", "required+k", "code_size()" };
@@ -790,7 +794,7 @@ static void run_manual(const TableSpec& t, Rng& r) {
   Environment env(t.arch == A_X64 ? Arch::kX64 : t.arch == A_X86 ? Arch::kX86 : Arch::kAArch64);
   build(t, B, env, t.base);
   std::vector<SI> v = snapshot(B);
-  g_table_desc = describe(t, v, false);
+  set_desc(describe(t, v, false));
   if (g_verbose) fprintf(stderr, "table %llu: %s\n", (ull)g_table, g_table_desc.c_str());
   C.arch[t.arch]++;
 
@@ -811,7 +815,7 @@ static void run_manual(const TableSpec& t, Rng& r) {
   }
   C.flatten_ok++;
   resnapshot(B, v);
-  g_table_desc = describe(t, v, true);
+  set_desc(describe(t, v, true));
   note_evidence(t, v, true);
   { bool same = ref_ok; for (size_t i = 0; same && i < v.size(); i++) same = ref_offs[i] == u128(v[i].off); if (same) C.ref_layout_equal++; else C.ref_layout_differs++; }
 
@@ -838,7 +842,7 @@ static void run_manual(const TableSpec& t, Rng& r) {
   for (size_t i = 0; i < v.size(); i++) if (v[i].off != v1[i].off) { viol("relocate:section-offset-changed", "relocate_to_base() moved section #" + std::to_string(v[i].id)); layout_ok = false; }
   u128 end2 = 0;
   layout_ok = check_layout(v, end2, "after-relocate") && layout_ok;
-  g_table_desc = describe(t, v, true);
+  set_desc(describe(t, v, true));
   size_t cs2 = B.code.code_size();
   if (g_verbose) fprintf(stderr, "table %llu after relocate: est0=%zu cs1=%zu cs2=%zu reduction=%zu end1=%llu end2=%llu %s\n", (ull)g_table, est0, cs1, cs2, sum.code_size_reduction, (ull)uint64_t(end1), (ull)uint64_t(end2), g_table_desc.c_str());
   check_code_size(v, cs2, end2, "after-relocate");
@@ -896,7 +900,7 @@ static void run_jit(const TableSpec& t) {
   Built B;
   build(t, B, g_rt->environment(), g_jit_hint);
   std::vector<SI> v = snapshot(B);
-  g_table_desc = "JitRuntime::add " + describe(t, v, false);
+  set_desc("JitRuntime::add " + describe(t, v, false));
   materialize_null_buffers(B);
   void* p = nullptr;
   Error err = g_rt->add(&p, &B.code);
@@ -909,7 +913,7 @@ static void run_jit(const TableSpec& t) {
   }
   C.jit_tables++;
   resnapshot(B, v);
-  g_table_desc = "JitRuntime::add " + describe(t, v, true);
+  set_desc("JitRuntime::add " + describe(t, v, true));
   u128 end = 0;
   bool ok = check_layout(v, end, "jit-add");
   if (ok && end <= (6u << 20)) {
@@ -948,7 +952,7 @@ int main(int argc, char** argv) {
 
   for (uint64_t i = first; i < first + ntab; i++) {
     g_table = i;
-    g_table_desc = "";
+    set_desc("");
     Rng r(seed * 1000003ull + i * 7919ull);
     TableSpec t = gen_table(r, allow_jit);
     C.tables++;
@@ -957,6 +961,7 @@ int main(int argc, char** argv) {
     if (t.jit) run_jit(t);
   }
 
+  g_finished = true;
   printf("{\"violations\":[");
   for (size_t i = 0; i < g_viol.size(); i++)
     printf("%s{\"key\":%s,\"what\":%s,\"table\":%llu,\"count\":%llu}", i ? "," : "", jstr(g_viol[i].key).c_str(), jstr(g_viol[i].what.substr(0, 1800)).c_str(), (ull)g_viol[i].table, (ull)g_viol[i].count);
